@@ -188,8 +188,10 @@ package rsec16
 //@     modifies nothing
 //@     invariant len(input) == len(availableRows) + len(usedParityRows) && len(input) <= c.dataShards && i <= len(parity)
 //@     invariant own(input) && own(usedParityRows) && apart(usedParityRows, missingRows) && apart(usedParityRows, availableRows) && apart(input, missingRows) && apart(input, availableRows) && apart(input, usedParityRows)
-//@     invariant idxIn(usedParityRows, len(parity)) && inRows(input, n)
-//@     invariant idxIn(availableRows, len(data)) && idxIn(missingRows, len(data))
+//@     invariant idxIn(usedParityRows, len(parity))
+//@     invariant inRows(input, n)
+//@     invariant idxIn(availableRows, len(data))
+//@     invariant idxIn(missingRows, len(data))
 //@     invariant forall(k, 0, len(missingRows), data[missingRows[k]] == nil, missingRows[k])
 //@   loop 2
 //@     modifies nothing
